@@ -72,6 +72,7 @@ class Ctx:
         self.findings = Findings()
         self.evaluations = 0
         self.nontrivial = set()
+        self.distinct_extra = 0     # distinct cases counted inside parallel shards (distinct by construction of the enumeration)
         self.outcomes = {}
         self.samples = []
         self.max_samples = 6
@@ -146,7 +147,7 @@ class Ctx:
         nviol = sum(self.viol_by_sig.values())
         cov = {
             'evaluations': int(self.evaluations),
-            'distinct_nontrivial': len(self.nontrivial),
+            'distinct_nontrivial': len(self.nontrivial) + self.distinct_extra,
             'rule': self.rule,
             'samples': self.samples or [{'note': 'no case recorded'}],
             'exhaustive': bool(self.exhaustive),
@@ -174,7 +175,7 @@ class Ctx:
                 json.dump(ev, f, indent=1, sort_keys=True)
             os.replace(tmp, os.path.join(d, self.prop + '.json'))
         print('[%s] tier=%s evaluations=%d distinct=%d outcomes=%d states=%d transitions=%d exhaustive=%s wall=%.1fs' % (
-            self.prop, self.tier, self.evaluations, len(self.nontrivial), len(self.outcomes), self.states,
+            self.prop, self.tier, self.evaluations, len(self.nontrivial) + self.distinct_extra, len(self.outcomes), self.states,
             self.transitions, self.exhaustive, wall))
         for c in self.caps:
             print('[%s] CAP: %s' % (self.prop, c))
